@@ -1,6 +1,6 @@
 (* C17 case checker: (A what equal) faithfulness ; (B test kind rc message handle-message) malformed arguments *)
 From Coq Require Import List String Ascii ZArith Bool.
-From AV Require Import Model.Sexp Model.Str.
+From AV Require Import Model.Sexp Model.Str Model.Encode Model.Ffi.
 Import ListNotations.
 Open Scope string_scope.
 
@@ -8,12 +8,37 @@ Open Scope string_scope.
 Definition is_error_code (rc : string) : bool :=
   negb (String.eqb rc "0") && negb (String.eqb rc "") && all_digits rc.
 
+Definition dec_triple (e : sexp) : option (string * (string * string)) :=
+  match e with
+  | L [n; r; v] => match dec_str n, dec_str r, dec_str v with Some n', Some r', Some v' => Some (n', (r', v')) | _, _, _ => None end
+  | _ => None end.
+Definition triple_eqb (a b : string * (string * string)) : bool :=
+  String.eqb (fst a) (fst b) && String.eqb (fst (snd a)) (fst (snd b)) && String.eqb (snd (snd a)) (snd (snd b)).
+Definition values_agree_set (a b : list (string * (string * string))) : bool :=
+  forallb (fun x => existsb (triple_eqb x) b) a && forallb (fun x => existsb (triple_eqb x) a) b && Nat.eqb (List.length a) (List.length b).
+(* (E names raws encs impl): issuance through the C ABI; impl = (ok ((name raw encoded) ...)) | (err) *)
+Definition check_E (names raws encs impl : sexp) : list sexp :=
+  match dec_list dec_str names, dec_list dec_str raws, dec_list (dec_opt dec_str) encs with
+  | Some ns, Some rs, Some es =>
+      let m := enc_values_call ns rs es in
+      match impl, m with
+      | L [A "ok"; vs], Some exp =>
+          match dec_list dec_triple vs with
+          | Some got => [A (if values_agree_set got exp then "ok" else "bad"); A "enc-values:ok"]
+          | None => [A "decode-error"] end
+      | L [A "err"], None => [A "ok"; A "enc-values:refused"]
+      | L [A "ok"; _], None => [A "bad"; A "enc-values:accepted-but-refused-by-rule"]
+      | L [A "err"], Some _ => [A "bad"; A "enc-values:refused-but-valid"]
+      | _, _ => [A "decode-error"] end
+  | _, _, _ => [A "decode-error"] end.
+
 Definition check_C17 (args : list sexp) : list sexp :=
   match args with
   | [A "A"; what; eq] =>
       match dec_str what, dec_bool eq with
       | Some w, Some e => [A (if e then "ok" else "bad"); A "faithful"]
       | _, _ => [A "decode-error"] end
+  | [A "E"; names; raws; encs; impl] => check_E names raws encs impl
   | [A "B"; test; kind; rc; msg; hmsg] =>
       match dec_str test, dec_str kind, dec_str rc, dec_bool msg, dec_bool hmsg with
       | Some t, Some k, Some rc', Some m, Some hm =>
